@@ -246,6 +246,26 @@ func TestC11(t *testing.T) {
 		runDBHistory(t, c, "big-table", big, ops)
 	}
 
+	// a dynamic range of more addresses than 16 bits count: suggestions and bindings far into it
+	{
+		wide := dbCfg{network: 0x0a000000, mask: 0xff000000, hasRange: true, rb: ip4(0x0a000100), re: ip4(0x0a012800)}
+		at := func(off uint32) net.IP { return ip4(0x0a000100 + off) }
+		ida, idb, idc := []byte{0xd0, 1}, []byte{0xd0, 2}, []byte{0xd0, 3}
+		ops := []dbOp{
+			{kind: 4, ip: at(70001), duid: ida},
+			{kind: 1, ip: at(70001), duid: ida, ttl: time.Hour},
+			{kind: 4, ip: at(70001), duid: idb},
+			{kind: 8, ip: at(66002), duid: idb, ttl: 15 * time.Second},
+			{kind: 2, duid: idb},
+			{kind: 4, ip: at(65536 + 5), duid: idc},
+			{kind: 1, ip: at(65536 + 5), duid: idc, ttl: time.Hour},
+			{kind: 2, ip: at(5), duid: nil},
+			{kind: 2, ip: at(65536 + 5), duid: nil},
+			{kind: 4, ip: at(75000), duid: []byte{0xd0, 4}},
+		}
+		runDBHistory(t, c, "wide-range", wide, ops)
+	}
+
 	// random histories over 3-5 addresses x 3 identities, several configurations
 	cfgs := []dbCfg{
 		{network: 0x0a000000, mask: 0xfffffff8},
